@@ -83,7 +83,7 @@ PROPS = {
         "assumptions": [],
     },
     "C17": {
-        "claim": "Decides the structural clauses LB1–LB5: the single-character variant is chosen by a character count (chars-derived), never by the UTF-8 byte length; a character is stored into the 8-slot array only on the edge where its index is in 0..=7 and the other edge returns Err, with every character of the text visited; the alpha index is the parsed text after exactly one skipped character and the parse error is propagated; the padding character written by from_str is the one Debug filters, the alpha prefix tested is the one printed, the Greek arm prints exactly its character, Display delegates to Debug. Does not decide round-trip equality or injectivity over all strings.",
+        "claim": "Decides the structural clauses LB1–LB5: the single-character variant is chosen by a character count of exactly 1 (chars-derived), never by the UTF-8 byte length; every store into the 8-slot array cannot leave the array (index tested to be in 0..=7, get_mut, or iter_mut zipped slots-first), all 8 slots are usable, slot i receives the i-th of all characters of the text, and a 9th character reaches a constructed Err (no panic, no truncation); the alpha index is the parsed text after exactly one skipped character and the parse error is propagated; the padding character written by from_str is the one Debug filters, the alpha prefix tested is the one printed, the Greek arm prints exactly its character, Display delegates to Debug. Does not decide round-trip equality or injectivity over all strings.",
         "note": "Trusted: rustc front end + engine; std str::chars/parse. The value-level round trip and injectivity are not decided; these clauses are necessary conditions of it.",
         "technique": "MIR taint (byte length vs char count) + guard + writer/reader constant agreement",
         "rules": [("LB1", LB.lb1), ("LB2", LB.lb2), ("LB3", LB.lb3), ("LB4/LB5", LB.lb45)],
@@ -101,7 +101,7 @@ PROPS = {
         "assumptions": [],
     },
     "C16": {
-        "claim": "Decides CC1–CC3 completely for concat(): no byte source appended to the result is a whole inline array (sources are bytes() views, the heap vector, or the array cut at its length field); left bytes precede right bytes exactly once each and the inline result records l + len(h) with the right bytes placed at [l .. l+len(h)]; both operands are shared references to a type without interior mutability.",
+        "claim": "Decides CC1–CC3 completely for concat(): no byte source appended to the result is a whole inline array (sources are bytes() views, the heap vector, or the array cut at its length field); the heap result is left bytes then right bytes exactly once each with no other conditional change of the vector; the inline result is built only under the tested fact l + len(h) ≤ 8, records l + len(h) and has the right bytes placed from index l of a copy of the left array; both operands are shared references to a type without interior mutability in a module without unsafe code.",
         "note": "Trusted: rustc front end + engine; Vec::extend_from_slice / copy_from_slice semantics. Known finding F6 (inline-to-heap spill copies the whole array) is listed in known_findings.json because the existing test concatenates_from_hex_vec asserts the defective length.",
         "technique": "MIR provenance of appended byte sources + ordering by dominance",
         "rules": [("CC1", H.cc1), ("CC2", H.cc2), ("CC3", H.cc3)],
